@@ -10,7 +10,7 @@ MUTANTS = [
     {'name': 'min_size_one', 'edits': [(P, 'if (parser->buffer_size < BINSON_OBJECT_MINIMUM_SIZE) {', 'if (parser->buffer_size < 1) {')],
      'expect': {'C01': 'INV-A1'}},
     {'name': 'depth_le_max', 'edits': [(P, '(parser->depth < parser->max_depth)) {', '(parser->depth <= parser->max_depth)) {')],
-     'expect': {'C01': 'STATE'}},
+     'expect': {'C01': 'STATE', 'C02': 'depth is incremented'}},
     {'name': 'leave_gate_removed', 'edits': [(P, '''    if (BINSON_ERROR_NONE != parser->error_flags) {
         /* depth is only meaningful while no error is latched. */
         return false;
@@ -71,6 +71,43 @@ MUTANTS = [
      'expect': {'C03': 'binson_parser_get_boolean'}},
     {'name': 'name_span_shifted', 'edits': [(P, "                state->current_name.bptr = consumed.bptr;\n                state->current_name.bsize = consumed.bsize;", "                state->current_name.bptr = consumed.bptr + (consumed.bsize > 0 ? 1 : 0);\n                state->current_name.bsize = consumed.bsize - (consumed.bsize > 0 ? 1 : 0);")],
      'expect': {'C03': 'span recorded', 'C01': None}},
+    {'name': 'enc_int16_up_to_32768', 'edits': [(W, "        else if ((length >= INT16_MIN) && (length <= INT16_MAX)) {", "        else if ((length >= INT16_MIN) && (length <= INT16_MAX + 1)) {")],
+     'expect': {'C05': '2-byte payload', 'C10': 'width 2'}},
+    {'name': 'dec_int8_boundary', 'edits': [(P, "    else if (length_data->bsize == 2 && (*value < INT8_MIN || *value > INT8_MAX)) {", "    else if (length_data->bsize == 2 && (*value < INT8_MIN || *value >= INT8_MAX)) {")],
+     'expect': {'C02': '2-byte integer', 'C10': '0x11'}},
+    {'name': 'dec_accepts_0x17', 'edits': [(P, "        case BINSON_DEF_STRINGLEN_INT32:\n", "        case BINSON_DEF_STRINGLEN_INT32:\n        case 0x17:\n")],
+     'expect': {'C02': '0x17'}},
+    {'name': 'level_wipe_dropped', 'edits': [(P, "                    memset(parser->current_state, 0x00, sizeof(binson_state));\n", "")],
+     'expect': {'C02': 'not zeroed'}},
+    {'name': 'silent_parse_integer_switch', 'edits': [(P, '''    if ((*value >= INT8_MIN && *value <= INT8_MAX) && length_data->bsize == 1) {
+        return true;
+    }
+
+    else if (length_data->bsize == 2 && (*value < INT8_MIN || *value > INT8_MAX)) {
+        return true;
+    }
+
+    else if (length_data->bsize == 4 && (*value < INT16_MIN || *value > INT16_MAX)) {
+        return true;
+    }
+
+    else if (length_data->bsize == 8 && (*value < INT32_MIN || *value > INT32_MAX)) {
+        return true;
+    }
+
+    return false;''', '''    switch (length_data->bsize) {
+        case 1:
+            return (*value >= INT8_MIN && *value <= INT8_MAX);
+        case 2:
+            return !(*value >= INT8_MIN && *value <= INT8_MAX);
+        case 4:
+            return !(*value >= INT16_MIN && *value <= INT16_MAX);
+        case 8:
+            return !(*value >= INT32_MIN && *value <= INT32_MAX);
+        default:
+            return false;
+    }''')],
+     'expect': {'C02': None, 'C10': None}},
     # behaviour-preserving edits: every check must stay silent
     {'name': 'silent_boundary_reordered', 'edits': [(P, '''    size_t c = a + b;
 
